@@ -37,6 +37,17 @@ func (e *Engine) fsFind(path any) *fsEntry {
 	return nil
 }
 
+// builder: the accumulated content of a strings.Builder, keyed by the builder's address.
+func (e *Engine) builder(v any) *string {
+	p := v.(Ptr)
+	key := &(*p.cells)[p.idx]
+	if e.builders[key] == nil {
+		z := `""`
+		e.builders[key] = &z
+	}
+	return e.builders[key]
+}
+
 func (e *Engine) fsErr(msg string, notExist bool) any {
 	if notExist {
 		return e.mkErr(msg, e.global(prog.ImportedPackage("io/fs").Var("ErrNotExist")).deref())
@@ -167,6 +178,31 @@ func (e *Engine) stubOS(fn *ssa.Function, args []any) (any, bool) {
 			return false, true
 		}
 		return errIs(iv, e.global(prog.ImportedPackage("io/fs").Var("ErrNotExist")).deref()), true
+	case "(*strings.Builder).WriteString", "(*strings.Builder).Write", "(*strings.Builder).WriteByte", "(*strings.Builder).WriteRune":
+		b := e.builder(args[0])
+		var add string
+		switch v := args[1].(type) {
+		case string, SymStr:
+			add = strE(v)
+		case BytesV:
+			add = bytesE(v)
+		case int64, SymInt:
+			add = "(str.from_code " + intE(v) + ")"
+		}
+		*b = "(str.++ " + *b + " " + add + ")"
+		if strings.HasSuffix(fn.String(), "WriteByte") {
+			return IfaceV{}, true
+		}
+		return Tuple{SymInt{"(str.len " + add + ")"}, IfaceV{}}, true
+	case "(*strings.Builder).String":
+		return SymStr{*e.builder(args[0])}, true
+	case "(*strings.Builder).Len":
+		return SymInt{"(str.len " + *e.builder(args[0]) + ")"}, true
+	case "(*strings.Builder).Reset":
+		*e.builder(args[0]) = `""`
+		return nil, true
+	case "(*strings.Builder).Grow":
+		return nil, true
 	case "math/rand.NewSource":
 		return IfaceV{namedType("math/rand", "Source"), OpaqueV{"randsource"}}, true
 	case "math/rand.New":
